@@ -157,7 +157,26 @@ def check(ctx, h, r):
             val = b.child_by_field_name("expression")
             vtext = before.encode()[val.start_byte:val.end_byte].decode()
             if is_ident_leaf(" ".join(vtext.split())):
-                return  # edit through a reference: C11
+                # edit through a reference: the addressed binding is the one that DEFINES the name (C11 says
+                # which); C04's clause is that everything outside that binding's value keeps its tokens
+                from . import c11
+
+                if depth:
+                    return
+                res = c11.resolve(val, vtext.strip())
+                if res[0] not in ("binding", "unbound"):
+                    return
+                tv = res[1].child_by_field_name("expression") if res[0] == "binding" else val
+                pre = [t[0] for t in tb if t[2] <= tv.start_byte]
+                post = [t[0] for t in tb if t[1] >= tv.end_byte]
+                newv = [t[0] for t in toks(r.op[2])]
+                if sa != pre + newv + post:
+                    ctx.fail({"clause": "reference-locality", **key0, "resolves": res[0], "binder": c11.binder_kind(res),
+                              "separated": c11.separated(res, before), "binder_value": c11.binder_value(res),
+                              "nested": len(names) > 1}, inp,
+                             f"{r.op!r} through the reference {vtext.strip()!r}: tokens outside the value of the defining "
+                             f"binding changed: {before!r} -> {out!r}")
+                return
             # replace: tokens outside the value extent are unchanged, in place
             pre = [t[0] for t in tb if t[2] <= val.start_byte]
             post = [t[0] for t in tb if t[1] >= val.end_byte]
